@@ -122,6 +122,10 @@ def entry_name(cfg):
     return f"pickle:MultiTaskReplayBuffer({cfg['cls']})" if cfg.get("tasks") else f"pickle:{cfg['cls']}"
 
 
+def DIVERGENCE_ENTRY(item):
+    return entry_name(item) if item.get("part") == "buf" else "save/restore"
+
+
 def alphabet(cfg):
     """Static op alphabet of a configuration."""
     sub = bool(cfg.get("H"))
